@@ -128,19 +128,28 @@ Proof. intros c H. apply focus_total_thm. apply wt_core_focus_wf. exact H. Qed.
 (* ---------- 3. the capture defect at the level of typing ---------- *)
 From SCC Require Import Lang.FunSyn Model.Check Sem.FunTyping Model.Fun2Core Model.WtDefs.
 
-(* An accepted program - accepted by the model of the checker AND well-typed according to the
-   declarative specification Sem/FunTyping.v - whose translation is an ILL-TYPED Core program.  The
-   annotated form is the real checker's output for corpus/fun/c12_capture_illtyped.sc (compared by
-   modelrun `wt-stages` on every run). *)
-Lemma fun2core_typing_refuted_lemma :
+(* REGRESSION (fixed in /repo by <commitcap>).  An accepted program - accepted by the model of the checker AND
+   well-typed according to the declarative specification Sem/FunTyping.v - whose translation BEFORE THE FIX
+   ([compile_prog_before_fix]) is an ILL-TYPED Core program.  The annotated form is the real checker's output
+   for corpus/fun/c12_capture_illtyped.sc (compared by modelrun `wt-stages` on every run). *)
+Lemma fun2core_typing_refuted_before_fix_lemma :
   exists (src : fprog) (p : fcprog) (c : cprog),
     has_type_b src = true /\ Check.check src = COk p /\ annotated_fcprog p = true /\
-    compile_prog p = Fun2Core.Ok c /\ wt_core c = false /\
+    compile_prog_before_fix p = Fun2Core.Ok c /\ wt_core c = false /\
     shadowing_risk_prog p = true /\ barendregt p = false.
 Proof.
   exists capture_typing_source, capture_typing_witness.
-  destruct (compile_prog capture_typing_witness) as [c|m] eqn:E; [|vm_compute in E; discriminate].
+  destruct (compile_prog_before_fix capture_typing_witness) as [c|m] eqn:E; [|vm_compute in E; discriminate].
   exists c. repeat split; try (vm_compute; reflexivity).
+  revert E. vm_compute. intros E. inversion E. reflexivity.
+Qed.
+(* ... the repaired translation of the same program is well-typed *)
+Lemma capture_typing_witness_fixed_lemma :
+  exists c, compile_prog capture_typing_witness = Fun2Core.Ok c /\ wt_core c = true /\
+            shadowing_risk_prog capture_typing_witness = true.
+Proof.
+  destruct (compile_prog capture_typing_witness) as [c|m] eqn:E; [|vm_compute in E; discriminate].
+  exists c. split; [reflexivity|]. split; [|vm_compute; reflexivity].
   revert E. vm_compute. intros E. inversion E. reflexivity.
 Qed.
 
